@@ -33,7 +33,16 @@ MANIFEST = {
             "floods through switches, router hops, wireless, FTP, bursts, interface toggles by the real Terminal / the real C2 beacon / a "
             "remote shutdown / a test double, exceptions raised inside deliveries, capacity changes in mid-tick, bandwidth = exact sum of k "
             "frames and one ulp beside it) and replays it through the model, comparing verdicts and loads as exact byte counts; every real "
-            "(float) admission test is also compared with exact rational arithmetic.",
+            "(float) admission test is also compared with exact rational arithmetic. Round 4: the airspace's interface lists are modelled "
+            "(Ev.wjoin / Ev.wleave = add_/remove_wireless_interface, separate from the enabled flag; clear() = every interface leaves); "
+            "neither touches a load, so the data TRANSMITTED on a frequency in a tick (summed from the sends, not read from the counter) "
+            "is within capacity whatever joins, leaves, is disabled or enabled inside the tick, also when a frequency is emptied and "
+            "repopulated (C18_Full_air_transmitted_holds; the accounting that forgets on empty is C18_air_forget_on_empty_counterexample). "
+            "Gen: the writers of bandwidth_load and of current_load are regenerated inventories equal to committed lists, the three "
+            "membership functions have strict shapes, and the window between the size read by the admission test and the size read by the "
+            "accounting contains no write on the frame (C18_gen_size_window). The rig drives remove/add/clear directly, empties and "
+            "repopulates every frequency inside a tick, moves an access point to another frequency in mid-episode, checks that no load "
+            "decreases inside a tick, and compares a wireless access point's answer with the acceptance model.",
     "note": "C18-specific: frame sizes (JSON length of the frame, F-9) and the far interface's accept/reject answer are inputs to the "
             "model, not predicted (the answer is compared with C08's acceptance model); IEEE-754 behaviour (exact when representable, "
             "monotone) is assumed, not verified; which software raises is not predicted (an exception is an input event).",
@@ -257,7 +266,7 @@ def run(ctx: Ctx):
                 seen_kinds.add(o["kind"])
                 ctx.violation(_oracle_sig(o), f"{o['kind']} ({o.get('medium', '-')}) at op {o['op']} "
                               f"{small['ops'][o['op']] if 0 <= o['op'] < len(small['ops']) else '-'}: {json.dumps(o)}",
-                              {"case": small, "oracle": orc2[:5], "lines": r2["lines"], "impl": r2["impl"], "from": name})
+                              {"case": small, "kind": o["kind"], "oracle": orc2[:5], "lines": r2["lines"], "impl": r2["impl"], "from": name})
         else:
             q = r2["lines"][di2] if di2 < len(r2["lines"]) else "?"
             what = ("the far interface's answer differs from C08's acceptance model (farAnswer)" if q.startswith("far ")
